@@ -12,8 +12,8 @@ D1, D2 = date(2020, 1, 1), date(2021, 6, 15)
 
 # key alphabets: 3 symbols each; 'intc' = ints whose hash() collide (-1, -2) - a hash join must still tell them apart
 KEY_ALPHA = {
-    "int": [1, 2, None],
-    "str": ["a", "b", None],
+    "int": [0, 2, None],          # 0 and '' are keys like any other (falsy values must not be taken for "missing")
+    "str": ["", "b", None],
     "intc": [-1, -2, None],
     "bool": [True, False, None],
     "date": [D1, D2, None],
